@@ -34,6 +34,10 @@ def shards(tier, seed):
     out.append({"kind": "axes"})
     cases = PW.build_cases(seed, "c06", n_opt, per_pair_configs=2, translucent_every=6)
     out += [{"kind": "opt", "cases": c} for c in PW.chunk(cases, 16)]
+    # the same mapping with Python warnings escalated to errors (python -W error / PYTHONWARNINGS=error): a legitimate way
+    # to run any library; the format mapping must not depend on the warning filter
+    wcases = PW.build_cases(seed, "c06w", 160 if tier == "quick" else 1600, per_pair_configs=2, translucent_every=3)
+    out += [{"kind": "opt", "cases": c, "warnings_as_errors": True} for c in PW.chunk(wcases, 2)]
     return out
 
 
@@ -135,6 +139,10 @@ def work(shard, rec):
     elif k == "api":
         api_unneeded(shard, rec, lib)
     elif k == "opt":
+        if shard.get("warnings_as_errors"):
+            import warnings
+            warnings.simplefilter("error")
+            rec.count("warnings_as_errors_shards")
         PW.run_cases(shard, rec, lib, [judge_opt])
 
 
